@@ -180,5 +180,14 @@ func init() {
 		Rule: "each run = 1-2 clusters with drawn token tables (names/groups/extra keys with odd bytes) and a drawn impersonation SAR policy (allow/deny/no-opinion per user, group, extra value, service account; fault profile: SAR backend errors), 8-28 raw requests with drawn combinations and casings of Authorization (valid, invalid, absent, duplicated), Impersonate-User (plain, service account, anonymous, empty), 0-3 Impersonate-Group, Impersonate-Extra-<escaped keys>, and other Impersonate-* members; the oracle compares what each stub upstream received with a reference computed from the property text; distinct = distinct trace hash; non-trivial = at least one request forwarded and one refused by the gateway",
 		Real: gwReal, Stub: gwStub, Assume: append([]string{"the authenticated identity includes system:authenticated as added by the gateway's authenticator chain; extra keys are compared lower-cased and unescaped (kube impersonation convention)", "websocket bearer sub-protocol and upgrade requests are not simulated"}, gwAssume...),
 	})
+	reg(&Check{
+		ID:    "C01",
+		Title: "Routing: first matching dispatch policy, with the documented rule semantics",
+		Batches: []Batch{
+			{World: "gw", Profile: "c01-routing", Quick: 200, Thor: 12000, PerProc: 1, FaultFree: true},
+		},
+		Rule: "each run = one cluster with 1-4 policies x 1-3 rules drawn from small per-field alphabets ('*', x, -x, several -x, mixed -x,y, globs, */sub, res/sub, service accounts with empty parts), every policy bound to its own single endpoint so that the contacted stub names the chosen policy; 10-40 real HTTP requests (verb x group x resource/sub x name x non-resource path x user/groups through TokenReview) interleaved with up to 6 reloads (new or permuted list); the oracle is a reference matcher written from docs/en/design.md and the property text, evaluated on the stored (admitted) list; distinct = distinct trace hash; non-trivial = at least one request matched and one matched no policy",
+		Real: gwReal, Stub: gwStub, Assume: append([]string{"the deciding power for the rule semantics comes from seeded generation of (policy list, request) pairs inside running gateways; what the simulation adds is history independence and 'never forwarded when unmatched' observed at the system boundary", "inverted non-resource URLs and inverted service accounts are documented as unsupported and are not generated"}, gwAssume...),
+	})
 	reg(&Check{ID: "SMOKE", Title: "debug", Batches: []Batch{{World: "gw", Profile: "smoke", Quick: 1, Thor: 1, PerProc: 1}}})
 }
